@@ -320,15 +320,48 @@ Definition receiver_okb (ev : env) (r : string * Z) : bool :=
   | None => false
   end.
 
-Definition msg_okb (ev : env) (sender : string * Z) (m : msg) : bool :=
-  assigns_okb ev (m_attrs m) &&
-  (if m_has_static m then m_id m =? m_static m else m_static m =? 0) &&
+(* entity ids inside a signal tree: the distinct members of a multiplexer have disjoint id sets
+   that do not contain the id of the multiplexer (so equal ids only occur between the shared
+   occurrences of one member) *)
+Definition sig_ids (s : sig) : list string := map sig_id (sig_flat s).
+
+Fixpoint disjointb (a b : list string) : bool :=
+  match a with [] => true | x :: r => negb (memb x b) && disjointb r b end.
+
+Fixpoint pairwise_disjointb (l : list (list string)) : bool :=
+  match l with [] => true | a :: r => forallb (disjointb a) r && pairwise_disjointb r end.
+
+Fixpoint tree_ids_okb (s : sig) : bool :=
+  match s with
+  | SMux _ _ _ groups =>
+      let ch := map snd (mux_children groups) in
+      negb (memb (sig_id s) (flat_map sig_ids ch)) &&
+      pairwise_disjointb (map sig_ids ch) &&
+      forallb (fun g => forallb (fun c : bool * sig => tree_ids_okb (snd c)) g) groups
+  | _ => true
+  end.
+
+(* the signal part of a message: layout, every signal, names and ids over the whole tree *)
+Definition msg_sigs_okb (ev : env) (m : msg) : bool :=
   layout_okb ev (m_size m * 8) 0 (m_signals m) &&
   forallb (sig_okb ev) (m_signals m) &&
   nodupb (map sig_name (msg_sigs m)) &&
+  pairwise_disjointb (map sig_ids (m_signals m)) &&
+  forallb tree_ids_okb (m_signals m).
+
+(* the rest of a message *)
+Definition msg_flat_okb (ev : env) (sender : string * Z) (m : msg) : bool :=
+  assigns_okb ev (m_attrs m) &&
+  (if m_has_static m then m_id m =? m_static m else m_static m =? 0) &&
   forallb (receiver_okb ev) (m_receivers m) &&
   nodupb (map fst (m_receivers m)) &&
   negb (existsb (fun r => String.eqb (fst r) (fst sender) && (snd r =? snd sender)) (m_receivers m)).
+
+Section WithSigCheck.
+Variable sigchk : env -> msg -> bool.
+
+Definition msg_okb (ev : env) (sender : string * Z) (m : msg) : bool :=
+  msg_flat_okb ev sender m && sigchk ev m.
 
 Definition iface_okb (ev : env) (i : iface) : bool :=
   receiver_okb ev (if_node i, if_number i) &&
@@ -357,8 +390,7 @@ Definition attr_okb (a : attr) : bool :=
   end.
 
 Definition enum_okb (e : sigenum) : bool :=
-  nodupb (map (fun v => e_name (fst v)) (se_values e)) && znodupb (map snd (se_values e)) &&
-  forallb (fun v => 0 <=? snd v) (se_values e).
+  nodupb (map (fun v => e_name (fst v)) (se_values e)) && znodupb (map snd (se_values e)).
 
 (* every entity id of the network, shared multiplexed signals counted once *)
 Definition net_ids (n : net) : list string :=
@@ -376,14 +408,20 @@ Definition net_env (n : net) : env :=
 
 Definition all_ifaces (n : net) : list iface := flat_map b_ifaces (n_buses n).
 
-Definition wfb (n : net) : bool :=
+Definition wfb_gen (n : net) : bool :=
   let ev := net_env n in
   nodupb (net_ids n) &&
   nodupb (map (fun b => e_name (b_ent b)) (n_buses n)) &&
   forallb (bus_okb ev (n_builders n)) (n_buses n) &&
   (* an interface is attached to at most one bus *)
   pair_nodupb (map (fun i => (if_node i, if_number i)) (all_ifaces n)) &&
-  forallb (fun nd => assigns_okb ev (nd_attrs nd) && (0 <=? nd_ifcount nd)) (n_nodes n) &&
+  forallb (fun nd => assigns_okb ev (nd_attrs nd)) (n_nodes n) &&
   forallb (fun t => 1 <=? st_size t) (n_types n) &&
   forallb enum_okb (n_enums n) &&
   forallb attr_okb (n_attrs n).
+
+End WithSigCheck.
+
+(* well-formedness; `wfb_flat` is the same without the clauses about signal trees *)
+Definition wfb (n : net) : bool := wfb_gen msg_sigs_okb n.
+Definition wfb_flat (n : net) : bool := wfb_gen (fun _ _ => true) n.
